@@ -67,6 +67,8 @@ def o_equals(inp):
     sb = [(k, t, tuple(v) if isinstance(v, list) else v) for (k, t, v) in sb]
     flags = tuple(inp["flags"])
     kind = inp.get("kind", "")
+    if inp.get("order_b") is not None and sorted(inp["order_b"]) != list(range(2 * len(nb) + len(sb))):
+        return [("~skip:order-is-not-a-permutation", "")]
     fails = []
     A, _ = build(na, sa)
     B, _ = build(nb, sb, inp.get("order_b"))
